@@ -133,7 +133,13 @@ func init() {
 				var out string
 				for i, sv := range c15combos {
 					dt := kcutils.ConvertFromBinaryTime(raw, sv.src, key.KeyCredentialVersion{Value: sv.ver})
-					r := c15kc(dt, binary.LittleEndian.Uint64(raw), before, false)
+					var k uint64 // fewer than 8 bytes: the library reads tick 0 (and must not go through "now")
+					if len(raw) >= 8 {
+						k = binary.LittleEndian.Uint64(raw)
+					} else {
+						k = 1 // never "now"
+					}
+					r := c15kc(dt, k, before, false)
 					if i > 0 && r != out {
 						panic("ConvertFromBinaryTime depends on source/version")
 					}
